@@ -1,4 +1,5 @@
 """C03 cases: division and remainder."""
+import random
 from .common import *
 from . import widthsweep as _ws
 
@@ -12,6 +13,136 @@ BIN = ["checked_div", "checked_rem", "checked_div_euclid", "checked_rem_euclid",
        "wrapping_div", "wrapping_rem", "wrapping_div_euclid", "wrapping_rem_euclid", "saturating_div",
        "div", "rem", "div_euclid", "rem_euclid", "checked_next_multiple_of"]
 MODE = ["div_floor", "div_ceil", "next_multiple_of"]
+# `strict_*` (int/strict.rs) forward to div/rem/div_euclid/rem_euclid; the driver answers them through the C04 handler
+STRICT = ["strict_div", "strict_rem", "strict_div_euclid", "strict_rem_euclid"]
+ALL_FORMS = [(op, None) for op in BIN + STRICT] + [(op, m) for op in MODE for m in ("dbg", "rel")]
+
+# Signed div_floor / div_ceil of MIN / -1: the crate returns MIN silently in both build modes (theorem
+# C03.i_divFloor_divCeil_min_neg_one); the statement does not name these two methods in its list of MIN / -1 results.
+# The Drive spec answers `P|MIN` there (both readings accepted, anything else is a violation), so these requests are
+# generated like all others and no class is parked behind a flag.
+
+
+def req(op, mode, s, cfg, a, b):
+    return f"{op} {s}{cfg} {mode} {hx(a)} {hx(b)}" if mode else f"{op} {s}{cfg} {hx(a)} {hx(b)}"
+
+
+def knuth_trace(u, v, w):
+    """Exact replay of `basecase_div_rem` (src/buint/div.rs) on u > v >= B: per quotient position j the set of
+    branches taken.  Tags: tie (a correction test compares equal), qmax (u[j+n] >= v[n-1], estimate Digit::MAX),
+    c1 (first q_hat correction),
+    c2 / c2no (second test evaluated: taken / not taken), rovf (r_hat + v[n-1] overflows, second test skipped),
+    addback (D6), q0 (quotient digit 0), qB1 (quotient digit B-1).  Returns (list of (j, tags), shift, q, r)."""
+    B = 1 << w
+    n = (v.bit_length() + w - 1) // w
+    lu = (u.bit_length() + w - 1) // w
+    if n < 2 or lu < n:
+        return None
+    m = lu - n
+    s = w - (v >> (w * (n - 1))).bit_length()
+    vn = v << s
+    R = u << s
+    vn1 = vn >> (w * (n - 1))
+    vn2 = (vn >> (w * (n - 2))) & (B - 1)
+    steps = []
+    q = 0
+    for j in range(m, -1, -1):
+        win = R >> (w * j)
+        low = R & ((1 << (w * j)) - 1)
+        ujn = win >> (w * n)
+        ujn1 = (win >> (w * (n - 1))) & (B - 1)
+        ujn2 = (win >> (w * (n - 2))) & (B - 1)
+        tags = set()
+        if ujn < vn1:
+            qh, rh = divmod(ujn * B + ujn1, vn1)
+            if qh and qh * vn2 == rh * B + ujn2:
+                tags.add("tie")             # the strict `>` of tuple_gt decides
+            if qh * vn2 > rh * B + ujn2:
+                qh -= 1
+                tags.add("c1")
+                if rh + vn1 < B:
+                    rh += vn1
+                    if qh and qh * vn2 == rh * B + ujn2:
+                        tags.add("tie")
+                    if qh * vn2 > rh * B + ujn2:
+                        qh -= 1
+                        tags.add("c2")
+                    else:
+                        tags.add("c2no")
+                else:
+                    tags.add("rovf")
+        else:
+            qh = B - 1
+            tags.add("qmax")
+        win -= qh * vn
+        if win < 0:
+            win += vn
+            qh -= 1
+            tags.add("addback")
+        assert 0 <= win < vn and 0 <= qh < B
+        if qh == 0:
+            tags.add("q0")
+        if qh == B - 1:
+            tags.add("qB1")
+        q |= qh << (w * j)
+        R = (win << (w * j)) | low
+        steps.append((j, tags))
+    assert q == u // v and R >> s == u % v
+    return steps, s, q, R >> s
+
+
+def _mk(rng, w, ln, top=None):
+    B = 1 << w
+    ds = [rng.choice([0, 0, 1, B - 1, B - 1, B // 2, B // 2 - 1, B // 2 + 1, B - 2, 2, rng.randrange(B)]) for _ in range(ln)]
+    ds[-1] = top if top is not None else (ds[-1] or rng.choice([1, B - 1, B // 2]))
+    return sum(d << (w * i) for i, d in enumerate(ds))
+
+
+def event_pairs(rng, w, n, want, tries):
+    """(u, v, tag) with u, v n-digit operands (v of 2..n digits, every length) whose Algorithm-D run takes a rare
+    branch, found by exact simulation.  One bucket per (branch combination, position class j = 0 / j >= 1 / top j,
+    normalisation shift zero / non-zero): rare combinations are kept, frequent ones fill up and are dropped."""
+    if n < 2:
+        return []
+    B = 1 << w
+    buckets = {}
+    for t in range(tries):
+        lv = rng.choice([2, 2, n, max(2, n - 1), max(2, n // 2), rng.randrange(2, n + 1)])
+        lu = rng.choice([n, n, n, lv, min(n, lv + 1), rng.randrange(lv, n + 1)])
+        v = _mk(rng, w, lv, rng.choice([None, None, 1, B // 2, B - 1, B // 2 - 1]))
+        c = rng.randrange(4)
+        if c == 0:
+            # dividend sharing its leading digits with the divisor (q_hat = MAX estimates, cmp-like ties)
+            k = rng.randrange(1, lv + 1)
+            u = ((v >> (w * (lv - k))) << (w * (lu - k))) | (_mk(rng, w, lu) & ((1 << (w * max(0, lu - k))) - 1))
+            u += rng.choice([0, 0, -1, 1]) << (w * max(0, lu - k))
+            u = max(u, 0) % (1 << (w * lu))
+        elif c == 1:
+            # q * v + r with extreme quotient digits and r at the ends of its range
+            q = _mk(rng, w, max(1, lu - lv + 1))
+            u = (q * v + rng.choice([0, v - 1, v // 2, 1, rng.randrange(v)])) % (1 << (w * lu))
+        else:
+            u = _mk(rng, w, lu)
+        if u <= v or u >> (w * n):
+            continue
+        tr = knuth_trace(u, v, w)
+        if tr is None:
+            continue
+        steps, sh, _, _ = tr
+        top = steps[0][0]
+        for j, tags in steps:
+            rare = tags & {"qmax", "c1", "c2", "c2no", "rovf", "addback", "tie"}
+            if not rare:
+                continue
+            pos = "0" if j == 0 else ("top" if j == top else "mid")
+            key = ("+".join(sorted(rare)), pos, sh == 0)
+            lst = buckets.setdefault(key, [])
+            if len(lst) < want and (u, v) not in [(x, y) for x, y, _ in lst]:
+                lst.append((u, v, "knuth-%s@%s%s" % (key[0], pos, "/shift0" if sh == 0 else "")))
+    out = []
+    for key in sorted(buckets):
+        out += buckets[key]
+    return out
 
 
 def divisor(rng, w, n):
@@ -95,11 +226,9 @@ def _gen_main(rng, tier):
                         yield f"checked_rem_euclid i{cfg} {hx(pat(sa * u, W))} {hx(pat(sb * v, W))}", tag
     for cfg in clist:
         w, n = wn(cfg)
-        if n > 40 and tier != "thorough":
-            continue
-        for _ in range(reps if n <= 40 else 3):
+        for _ in range(reps if n <= 40 else 3 if tier == "thorough" else 2):
             for s in "ui":
-                for op in BIN:
+                for op in BIN + STRICT:
                     t, a, b = div_pair(rng, w, n, s == "i")
                     yield f"{op} {s}{cfg} {hx(a)} {hx(b)}", t
                 for op in MODE:
@@ -121,6 +250,228 @@ def gen(rng, tier):
     yield from _grid(rng, tier)
     yield from _huge(rng, tier)
     yield from _exh8(rng, tier)
+    # independent PRNG streams for the classes added later: the cases above stay what they were for a given seed
+    yield from _events(random.Random(rng.random()), tier)
+    yield from _boundary(random.Random(rng.random()), tier)
+    yield from _nmo_boundary(random.Random(rng.random()), tier)
+    yield from _huge_div(random.Random(rng.random()), tier)
+    yield from _light_sweep(random.Random(rng.random()), tier)
+    yield from _relations(random.Random(rng.random()), tier)
+
+
+def _all_cfgs(tier):
+    cl = cfgs(tier) if tier == "thorough" else cfgs(tier) + EXTRA_QUICK
+    return cl + [c for c in HUGE_CFGS if c not in cl]
+
+
+def _signed_variants(u, v, W):
+    """the four sign combinations of a magnitude pair (only when both magnitudes are representable)"""
+    if u >= (1 << (W - 1)) or v >= (1 << (W - 1)):
+        return []
+    return [(pat(sa * u, W), pat(sb * v, W)) for sa in (1, -1) for sb in (1, -1)]
+
+
+def _events(rng, tier):
+    """Algorithm-D branch combinations (q_hat = MAX estimate, one / two corrections, r_hat overflow, add-back, at the
+    lowest / a middle / the top quotient position, with and without a normalisation shift) found by exact simulation,
+    for every configuration up to 8192 bits, driven through EVERY entry point: unsigned all forms; signed all four
+    sign combinations (sign fix-ups, Euclid / floor / ceil adjustments and next_multiple_of on top of such a
+    quotient)."""
+    k = 0
+    for cfg in _all_cfgs(tier):
+        w, n = wn(cfg)
+        if n < 2:
+            continue
+        W = w * n
+        wide = n > 40
+        thorough = tier == "thorough"
+        ps = event_pairs(rng, w, n, (3 if thorough else 2) if not wide else 1,
+                         (2500 if thorough else 600) if not wide else (300 if thorough else 120))
+        if wide and not thorough:
+            # the Lean model needs ~0.1 s per 8192-bit Algorithm-D run with 8-bit digits: keep a spread of the buckets
+            keep = 14 if n > 512 else 24 if n > 256 else len(ps)
+            if len(ps) > keep:
+                ps = [ps[(i * len(ps)) // keep] for i in range(keep)]
+        for (u, v, tag) in ps:
+            forms = ALL_FORMS
+            if wide:
+                # few requests on the wide configurations: rotate through the forms
+                forms = [ALL_FORMS[(5 * k) % len(ALL_FORMS)]]
+            for (op, mode) in forms:
+                yield req(op, mode, "u", cfg, u, v), tag
+            sv = _signed_variants(u, v, W)
+            if wide and sv:
+                sv = [sv[k % 4]]
+            for i, (a, b) in enumerate(sv):
+                if wide:
+                    fs = [ALL_FORMS[(7 * k + 1) % len(ALL_FORMS)]]
+                else:
+                    fs = [ALL_FORMS[(k + 4 * i + 7 * t) % len(ALL_FORMS)] for t in range(7)]
+                for (op, mode) in fs:
+                    yield req(op, mode, "i", cfg, a, b), tag
+            k += 1
+
+
+def _relations(rng, tier):
+    """dividend in a fixed relation to a divisor of every length class: equal (cmp shortcut), one less / one more
+    (quotient 0 / 1 with remainder b-1 / 1), 2b, 2b-1, b*B, b*B-1 (first quotient digit 0 / B-1), b*b-1, k*b exactly and
+    k*b-1 (remainder 0 / b-1 under every rounding mode); every instantiation, forms rotating, signs random"""
+    k = 0
+    cl = _all_cfgs(tier)
+    if tier != "thorough":
+        cl = cl + [c for c in THOROUGH_CFGS if c not in cl]
+    for cfg in cl:
+        w, n = wn(cfg)
+        W = w * n
+        M = 1 << W
+        B = 1 << w
+        for ln in sorted(set([1, 2, (n + 1) // 2, max(1, n - 1), n])):
+            if ln > n:
+                continue
+            b = _mk(rng, w, ln, rng.choice([None, 1, B - 1, B // 2]))
+            kq = _mk(rng, w, max(1, n - ln))
+            rel = [b, b - 1, b + 1, 2 * b, 2 * b - 1, b * B, b * B - 1, b * b - 1, kq * b, kq * b - 1, kq * b + b - 1, b // 2]
+            for a in rel:
+                if not (0 <= a < M):
+                    continue
+                op, mode = ALL_FORMS[(5 * k) % len(ALL_FORMS)]
+                yield req(op, mode, "u", cfg, a, b), "relation"
+                if a < (M >> 1) and b < (M >> 1):
+                    op, mode = ALL_FORMS[(7 * k + 3) % len(ALL_FORMS)]
+                    yield req(op, mode, "i", cfg, pat(rng.choice([1, -1]) * a, W), pat(rng.choice([1, -1]) * b, W)), "relation"
+                k += 1
+
+
+def _light_sweep(rng, tier):
+    """quick tier only: a light pass over the instantiations that are otherwise thorough-tier only (every digit type x
+    digit count the harness instantiates is then divided at least a few dozen times in every quick run): Algorithm-D
+    branch pairs, structured random pairs and MIN / -1, forms rotating"""
+    if tier == "thorough":
+        return
+    k = 0
+    have = set(_all_cfgs(tier))
+    for cfg in THOROUGH_CFGS:
+        if cfg in have:
+            continue
+        w, n = wn(cfg)
+        W = w * n
+        M = 1 << W
+        ps = [(u, v, t) for (u, v, t) in event_pairs(rng, w, n, 1, 300 if n <= 40 else 100)]
+        if n > 40 and len(ps) > 16:
+            ps = [ps[(i * len(ps)) // 16] for i in range(16)]
+        for (u, v, tag) in ps:
+            op, mode = ALL_FORMS[(5 * k) % len(ALL_FORMS)]
+            yield req(op, mode, "u", cfg, u, v), tag
+            sv = _signed_variants(u, v, W)
+            if sv:
+                a, b = sv[k % 4]
+                op, mode = ALL_FORMS[(7 * k + 1) % len(ALL_FORMS)]
+                yield req(op, mode, "i", cfg, a, b), tag
+            k += 1
+        for i, (op, mode) in enumerate(ALL_FORMS):
+            for s in "ui":
+                t, a, b = div_pair(rng, w, n, s == "i")
+                yield req(op, mode, s, cfg, a, b), t
+            yield req(op, mode, "i", cfg, M >> 1, M - 1), "boundary"
+            yield req(op, mode, "iu"[i % 2], cfg, (M >> 1) + (i % 3), [0, 1, M - 2][i % 3]), "boundary"
+
+
+def _boundary(rng, tier):
+    """the documented special pairs on EVERY configuration and EVERY form in both build modes: MIN / -1 (overflow),
+    MIN / 1 (early return), MIN / MIN, neighbours of MIN / MAX with +-1, +-2, zero divisor, equal operands"""
+    for cfg in _all_cfgs(tier):
+        w, n = wn(cfg)
+        W = w * n
+        M = 1 << W
+        mn, mx = M >> 1, (M >> 1) - 1
+        prs = [(mn, M - 1), (mn, 1), (mn, mn), (mn + 1, M - 1), (mx, M - 1), (M - 1, mn), (0, M - 1), (mn, 2),
+               (mn, M - 2), (mn, 0), (0, 0), (M - 1, 0), (mn, mx), (mx, mn), (mn, mn + 1), (mn + 1, mn),
+               (M - 1, M - 1), (M - 1, 1), (mx, mx), (M - 2, M - 1), (M - 1, M - 2)]
+        if n > 40:
+            # wide: every pair once per signedness, forms rotating
+            for i, (a, b) in enumerate(prs):
+                for j, s in enumerate("ui"):
+                    op, mode = ALL_FORMS[(3 * i + 11 * j + n) % len(ALL_FORMS)]
+                    yield req(op, mode, s, cfg, a, b), "boundary"
+            # ... and MIN / -1, MIN / 1, x / 0 on every form
+            for (a, b) in prs[:2] + prs[9:10]:
+                for (op, mode) in ALL_FORMS:
+                    yield req(op, mode, "i", cfg, a, b), "boundary"
+            continue
+        for (a, b) in prs:
+            for s in "ui":
+                for (op, mode) in ALL_FORMS:
+                    yield req(op, mode, s, cfg, a, b), "boundary"
+
+
+def _nmo_boundary(rng, tier):
+    """next_multiple_of / checked_next_multiple_of (and div_ceil / div_floor) where the multiple is the last
+    representable one or the first unrepresentable one: a = k*b + delta around the extreme multiples of b"""
+    for cfg in _all_cfgs(tier):
+        w, n = wn(cfg)
+        W = w * n
+        M = 1 << W
+        B = 1 << w
+        for rep in range((1 if tier != "thorough" else 3) if n > 40 else 6 if tier != "thorough" else 30):
+            for s in "ui":
+                lo, hi = (-(M >> 1), (M >> 1) - 1) if s == "i" else (0, M - 1)
+                # (wide configurations: mostly divisors that take the short-division / cmp / single-step paths, which
+                #  the Lean model evaluates quickly; Algorithm D on 8192 bits is exercised by _events / _huge_div)
+                c = rng.randrange(5) if n <= 40 else rng.choice([0, 2, 3, 4, 4 if n > 512 else 1])
+                if c == 0:
+                    b = rng.choice([2, 3, 7, 10, B - 1, B // 2, B // 2 + 1, rng.randrange(1, B)])
+                elif c == 1:
+                    b = divisor(rng, w, n)
+                elif c == 2:
+                    b = hi - rng.randrange(0, 4)
+                elif c == 3:
+                    b = (hi + 1) // 2 + rng.randrange(-2, 3)
+                else:
+                    b = rng.randrange(1, hi + 1)
+                b = max(1, min(hi, b))
+                if s == "i" and rng.random() < 0.5:
+                    b = -b
+                # extreme multiples of b inside [lo, hi]
+                kmax = hi // abs(b)
+                kmin = -((-lo) // abs(b))
+                for base in (kmax * abs(b), kmin * abs(b)):
+                    for dl in (-1, 0, 1, rng.choice([2, abs(b) - 1, abs(b) // 2])):
+                        a = base + dl
+                        if not (lo <= a <= hi):
+                            continue
+                        for (op, mode) in (("next_multiple_of", "dbg"), ("next_multiple_of", "rel"),
+                                           ("checked_next_multiple_of", None), ("div_ceil", "dbg"),
+                                           ("div_ceil", "rel"), ("div_floor", "dbg"), ("div_floor", "rel")):
+                            yield req(op, mode, s, cfg, pat(a, W), pat(b, W)), "multiple-boundary"
+
+
+def _huge_div(rng, tier):
+    """8192-bit operands against divisors of EVERY length class (one digit, two digits, a quarter, half, n-1 and n
+    digits; normalised and unnormalised top digit; 2^(W/2)+1), all forms rotating, both signs: Algorithm D with many
+    quotient digits, short division over 128..1024 digits, the cmp path"""
+    k = 0
+    for cfg in HUGE_CFGS:
+        w, n = wn(cfg)
+        W = w * n
+        B = 1 << w
+        vals = huge_values(rng, cfg)
+        divs = []
+        for ln in (1, 1, 2, 3, n // 4, n // 2, n // 2 + 1, n - 1, n):
+            top = rng.choice([1, B // 2, B - 1, B // 2 - 1, rng.randrange(1, B)])
+            divs.append(_mk(rng, w, ln, top))
+        divs += [(1 << (W // 2)) + 1, 1 << (W // 2), (1 << (w * (n // 2))) - 1, B - 1, 1 << (W - w)]
+        for b in divs:
+            dividends = [vals[0], vals[1], vals[4], vals[5], _mk(rng, w, n), _mk(rng, w, max(1, n - rng.randrange(1, 4)))]
+            if tier != "thorough":
+                rng.shuffle(dividends)
+                dividends = dividends[:1 if n > 512 else 2 if n > 256 else 3]
+            for a in dividends:
+                op, mode = ALL_FORMS[k % len(ALL_FORMS)]
+                k += 1
+                yield req(op, mode, "u", cfg, a, b), "huge-div"
+                sa, sb = rng.choice([1, -1]), rng.choice([1, -1])
+                op, mode = ALL_FORMS[(k * 7) % len(ALL_FORMS)]
+                yield req(op, mode, "i", cfg, pat(sa * (a >> 1), W), pat(sb * b, W)), "huge-div"
 
 
 def _grid(rng, tier):
@@ -133,6 +484,15 @@ def _grid(rng, tier):
             for a, b in grid_pairs(rng, cfg, lim):
                 yield f"div_floor {s}{cfg} dbg {hx(a)} {hx(b)}", "edge-grid"
                 yield f"div_ceil {s}{cfg} rel {hx(a)} {hx(b)}", "edge-grid"
+            for a, b in grid_pairs(rng, cfg, lim):
+                yield f"div_floor {s}{cfg} rel {hx(a)} {hx(b)}", "edge-grid"
+                yield f"div_ceil {s}{cfg} dbg {hx(a)} {hx(b)}", "edge-grid"
+                yield f"next_multiple_of {s}{cfg} dbg {hx(a)} {hx(b)}", "edge-grid"
+                yield f"next_multiple_of {s}{cfg} rel {hx(a)} {hx(b)}", "edge-grid"
+                yield f"checked_next_multiple_of {s}{cfg} {hx(a)} {hx(b)}", "edge-grid"
+            for op in ("overflowing_rem_euclid", "wrapping_div_euclid", "saturating_div", "rem", "div_euclid"):
+                for a, b in grid_pairs(rng, cfg, lim // 2):
+                    yield f"{op} {s}{cfg} {hx(a)} {hx(b)}", "edge-grid"
 
 
 def _huge(rng, tier):
@@ -156,6 +516,12 @@ def _exh8(rng, tier):
             for a in range(256):
                 for b in range(256):
                     yield f"{op} {s}8x1 {hx(a)} {hx(b)}", "exhaustive8"
+    # the signed adjustments (Euclid / floor / ceil / next multiple) on every i8 pair, one build mode each
+    for op in ['checked_rem_euclid', 'div_floor dbg', 'div_ceil rel', 'checked_next_multiple_of']:
+        o, _, m = op.partition(" ")
+        for a in range(256):
+            for b in range(256):
+                yield req(o, m or None, "i", "8x1", a, b), "exhaustive8"
 
 
 def ROUTE(line):
